@@ -58,6 +58,11 @@ class Prop:
         nobj = deep(c, [2, 3, 4], [5, 6])
         nops = deep(c, [5, 10, 16, 24, 40], [60, 90])
         drop_rate = c.choice([0.0, 0.0, 0.04, 0.1])
+        # "hub" histories: one object is linked to all the others under the same name (several
+        # partners in one table), and partners are dropped from inside handlers more often
+        hub = nobj >= 3 and c.random() < 0.4
+        if hub:
+            drop_rate = max(drop_rate, 0.1)
         ctr = [100]
 
         def fresh():
@@ -66,12 +71,12 @@ class Prop:
 
         def gen_sync():
             g = r.choice(["int", "str", "list", "list", "chk"])
-            a = r.randrange(nobj)
+            a = 0 if hub else r.randrange(nobj)
             b = (a + 1 + r.randrange(nobj - 1)) % nobj
             return {"k": "sync", "a": a, "ta": r.choice(PAIRS[g]) if r.random() < 0.3 else PAIRS[g][0],
                     "b": b, "tb": r.choice(PAIRS[g]) if r.random() < 0.3 else PAIRS[g][0],
                     "mutual": r.random() < 0.65}
-        ops = [gen_sync() for _ in range(c.randint(1, 3))]
+        ops = [gen_sync() for _ in range(c.randint(1, 3) if not hub else c.randint(2, 4))]
         for _ in range(nops):
             x = r.random()
             o = r.randrange(nobj)
@@ -108,7 +113,8 @@ class Prop:
                 op = {"k": "drop", "o": o}
             else:
                 op = {"k": "gc"}
-            if op["k"] in ("set", "setlist", "list") and drop_rate and er.random() < drop_rate * 2:
+            if op["k"] in ("set", "setlist", "list") and drop_rate \
+                    and er.random() < drop_rate * (4 if hub else 2):
                 op["env"] = [{"at": "h:any", "nth": er.choice([1, 1, 2]), "do": "dropgc",
                               "o": er.randrange(nobj)}]
             if op["k"] == "sync" and op["ta"] in PAIRS["chk"] and er.random() < 0.4:
@@ -186,7 +192,7 @@ class Prop:
                 return o         # a handler that closes over its own object
             return h
         for i, o in enumerate(objs):
-            o.on_trait_change(mk(i), "n,m,s,t,l,k,ld,l_items,k_items,ld_items")
+            o.on_trait_change(mk(i), "n,m,s,t,l,k,ld,g_items,l_items,k_items,ld_items,g_items_items")
             o.on_trait_change(mk_self(o), "m")
         o = None          # (the loop variable must not keep the last object alive)
 
@@ -354,6 +360,11 @@ class Prop:
                     vals[node] = UNKNOWN
                 if stats["unlinked"]:
                     stats["after_unlink"] += 1
+            if self.dropped_in_op:
+                # an object let go of from inside a handler was kept alive by the frames
+                # of the propagation in progress; it may sit in a reference cycle (a handler
+                # closing over its own object): the collector comes by once the op is over
+                gc.collect()
             env.end_op()
             # ---- oracle
             if routed:
